@@ -287,3 +287,65 @@ Proof.
            discriminate ET'.
 Qed.
 End Switch.
+
+(* ---------- the switch theorem, stated between the two settings of the same model ---------- *)
+Section SwitchStatements.
+Variable indexed : bool.
+Variable defs : list ruledef.
+Variable names : list text.
+Variable ns : list node.
+Hypothesis Hres : reserved_free names.
+Hypothesis Hcanon : canonical (length names) ns.
+Hypothesis Hok : data_static_ok ns.
+Hypothesis Hasm : consts_asm_free ns.
+Hypothesis Hkd : matches_kinded indexed defs ns.
+
+Notation ON b := (assembleS true true true indexed defs names ns b).
+Notation OFF b := (assembleS true true false indexed defs names ns b).
+
+Theorem static_switch_cases b :
+  ON b = OFF b \/
+  (exists o s, (1 <= b)%nat /\ ON b = Some (o, s, 1%nat) /\ (b = 1%nat -> OFF b = None) /\ ((2 <= b)%nat -> OFF b = Some (o, s, 2%nat))) \/
+  ((2 <= b)%nat /\ ON b = None /\ (b = 2%nat -> OFF b = None)).
+Proof. rewrite (assembleS_off true true indexed defs names ns b Hres Hcanon Hok). apply cases; assumption. Qed.
+
+Theorem static_switch_same_result b o s n o' s' n' :
+  ON b = Some (o, s, n) -> OFF b = Some (o', s', n') -> o = o' /\ s = s' /\ counts_ok n n'.
+Proof.
+  intros H1 H2. destruct (static_switch_cases b) as [E|[(o0 & s0 & Hb & E1 & E2 & E3)|(Hb & E1 & _)]].
+  - rewrite E, H2 in H1. inversion H1; subst. repeat split. now left.
+  - rewrite E1 in H1. inversion H1; subst o0 s0 n. destruct (Nat.eq_dec b 1) as [->|Hne].
+    + rewrite (E2 eq_refl) in H2. discriminate.
+    + rewrite E3 in H2 by lia. inversion H2; subst. repeat split. right. auto.
+  - rewrite E1 in H1. discriminate.
+Qed.
+
+Theorem static_switch_fwd b o s n : (2 <= b)%nat ->
+  ON b = Some (o, s, n) -> exists n', OFF b = Some (o, s, n') /\ counts_ok n n'.
+Proof.
+  intros Hb H1. destruct (static_switch_cases b) as [E|[(o0 & s0 & _ & E1 & _ & E3)|(_ & E1 & _)]].
+  - exists n. rewrite <- E. split; [exact H1|now left].
+  - rewrite E1 in H1. inversion H1; subst o0 s0 n. exists 2%nat. split; [exact (E3 Hb)|right; auto].
+  - rewrite E1 in H1. discriminate.
+Qed.
+
+Theorem static_switch_bwd_partial b o s n' : (b <= 2)%nat ->
+  OFF b = Some (o, s, n') -> exists n, ON b = Some (o, s, n) /\ counts_ok n n'.
+Proof.
+  intros Hb H2. destruct (static_switch_cases b) as [E|[(o0 & s0 & Hb1 & E1 & E2 & E3)|(Hb2 & E1 & E2)]].
+  - exists n'. rewrite E. split; [exact H2|now left].
+  - destruct (Nat.eq_dec b 1) as [->|Hne].
+    + rewrite (E2 eq_refl) in H2. discriminate.
+    + rewrite E3 in H2 by lia. inversion H2; subst. exists 1%nat. split; [exact E1|right; auto].
+  - assert (b = 2%nat) by lia. subst b. rewrite (E2 eq_refl) in H2. discriminate.
+Qed.
+
+Theorem static_switch_budget1 o s n :
+  ON 1 = Some (o, s, n) -> OFF 1 = Some (o, s, n) \/ (n = 1%nat /\ OFF 1 = None).
+Proof.
+  intro H1. destruct (static_switch_cases 1) as [E|[(o0 & s0 & _ & E1 & E2 & _)|(Hb & _)]].
+  - left. rewrite <- E. exact H1.
+  - right. rewrite E1 in H1. inversion H1; subst. split; [reflexivity|exact (E2 eq_refl)].
+  - lia.
+Qed.
+End SwitchStatements.
